@@ -61,7 +61,7 @@ def run_case(ctx):
     src = ctx.src
     common.draw_env(ctx)
     common.prelude(ctx)
-    m = world.gen_world(src, scale=("hugebox", "manyboxes", "farcorner", "manyfields", "longdomain"), lowprec_ok=True)
+    m = world.gen_world(src, scale=("hugebox", "manyboxes", "farcorner", "manyfields", "longdomain", "manyfiles"), lowprec_ok=True)
     from amr_kitchen import PlotfileCooker as _PC
     path, hcwd, _abs, hmode = common.history_materialise(
         ctx, m, lambda p: run_tool(ctx, lambda: (list(_PC(p)[0][0]), _PC(p)[0][0][:])))
